@@ -178,11 +178,13 @@ Section RoundTrip.
   (* observations: fully quoted text, URL(that text), its fully quoted text again *)
   Variables (full : text) (re : res url_obs) (full2 : res text).
 
+  (* "recovered exactly, up to Unicode NFC": equal after normalising both sides *)
+  Definition nfc_pairs (l : list (text * option text)) := map (fun '(k, v) => (nfc k, option_map nfc v)) l.
   Definition recovered (o : url_obs) : bool :=
-    text_eqb (uo_user o) (nfc user) && text_eqb (uo_pass o) (nfc pw) &&
-    texts_eqb (uo_path o) (map nfc path) &&
-    pairs_eqb (uo_query o) (map (fun '(k, v) => (nfc k, option_map nfc v)) q) &&
-    text_eqb (uo_frag o) (nfc frag) &&
+    text_eqb (nfc (uo_user o)) (nfc user) && text_eqb (nfc (uo_pass o)) (nfc pw) &&
+    texts_eqb (map nfc (uo_path o)) (map nfc path) &&
+    pairs_eqb (nfc_pairs (uo_query o)) (nfc_pairs q) &&
+    text_eqb (nfc (uo_frag o)) (nfc frag) &&
     (* nothing leaked into the neighbours *)
     text_eqb (uo_scheme o) scheme && text_eqb (uo_host o) host_back.
 
@@ -200,7 +202,7 @@ End RoundTrip.
 (* quote_X_part(s, full_quote=True) = qd; unquote(qd) = back *)
 Definition quote_ok (nfc : text -> text) (p : position) (s qd back : text) : bool :=
   if all_scalar s then
-    legal (ok_at p) qd && text_eqb (ref_unquote qd) (nfc s) && text_eqb back (nfc s)
+    legal (ok_at p) qd && text_eqb (nfc (ref_unquote qd)) (nfc s) && text_eqb (nfc back) (nfc s)
   else true.
 
 (* URL(t) = r; then T1 = to_text(True), T2 = URL(T1).to_text(True), M1/M2 likewise minimally quoted *)
